@@ -20,12 +20,14 @@ IPYTHON = ["svg", "png", "jpeg", "html", "javascript", "markdown", "latex"]
 
 CLASS_POOL = ['A', 'B', 'C', 'Foo', 'Bar', 'Baz', 'Test', 'T2', 'Tensor', 'Pose3', 'Point2d',
               'Values', 'MyFactor', 'Key', 'Tt', 'Item', 'Node', 'Graph', 'Cal3', 'Rot']
-NS_POOL = ['gtsam', 'ns1', 'ns2', 'inner', 'a', 'b', 'detail', 'T', 'test', 'geo']
+NS_POOL = ['gtsam', 'ns1', 'ns2', 'inner', 'a', 'b', 'detail', 'T', 'test', 'geo',
+           'gtsam_unstable', 'ns12', 'ab']
 FUNC_POOL = ['f', 'g', 'h', 'get', 'set', 'add', 'norm', 'size', 'at', 'load2D', 'create',
              'value', 'dim', 'equals', 'run', 'tf', 'test', 'T']
 ARG_POOL = ['x', 'y', 'z', 'a', 'b', 'n', 'key', 'name', 'other', 'p', 'q', 'value', 't', 'T',
             's', 'tol', 'i', 'j']
-TPARAM_POOL = ['T', 'U', 'K', 'N', 'POSE', 'CALIBRATION', 'T1', 'V', 'P', 'CAM', 'Tp', 'D']
+TPARAM_POOL = ['T', 'U', 'K', 'N', 'POSE', 'CALIBRATION', 'T1', 'V', 'P', 'CAM', 'Tp', 'D',
+               'POINT', 'RESULT']
 ENUM_POOL = ['Kind', 'Color', 'Mode', 'Verbosity', 'E', 'State']
 ENUMERATOR_POOL = ['Red', 'Green', 'Blue', 'A', 'B', 'C', 'SILENT', 'ERROR', 'kOne', 'kTwo',
                    'Dog', 'Cat', 'x0', 'X']
@@ -43,7 +45,8 @@ DEFAULTS = ['0', '1', '-1', '1.5', '-9.81', '1e-9', 'true', 'false', 'nullptr', 
             '"} ;"', '"it\'s"', 'gtsam::Vector3(1, 2, 3)', '1 + 2', 'Kind::Dog', '[](int){}',
             'std::map<int, std::vector<double>>()', '-x', '"<"', 'T()', 'sizeof(int)',
             '"/path/x"', '0.', 'a.b', '&g', '!flag', "'('", "')'", "','", "';'", "'{'", "'\"'",
-            '"("', '")"', '","', '";"', '"{"', "'<'", '"]"', "'['"]
+            '"("', '")"', '","', '";"', '"{"', "'<'", '"]"', "'['", '"http://x.org/a"', '"/*"',
+            '"*/"', '"a//b"', '"/* c */"']
 HEADERS = ['gtsam/geometry/Point2.h', 'vector', 'a/b-c.hpp', 'x.h', 'path with space/y.h',
            'gtsam/base/Matrix.h']
 
@@ -76,6 +79,8 @@ class Profile:
     mixed_template_lists: bool = True  # some params with a list, some without
     parents: bool = True
     same_name_other_ns: bool = True
+    same_leaf_ns: bool = True
+    same_typedef_name_other_ns: bool = False
     defaults: bool = True
     typedef_needs_target: bool = False
     template_modes: Tuple[str, ...] = ('all', 'all', 'all', 'none', 'mixed')
@@ -107,6 +112,7 @@ class Decl:
     has_lists: bool = False
     scoped: bool = False  # some member uses T::X
     lists: tuple = ()     # instantiation lists of the template (if complete)
+    has_enums: bool = False
 
 
 class Ctx:
@@ -125,6 +131,9 @@ class Ctx:
         self.enumerators = set()  # all enumerator names used (compilable: must be unique)
         self.fn_count = {}      # (path, name) -> number of free functions of that name
         self.locked = set()     # (path, name) used as typedef target: must stay unique
+        self.ns_paths = []      # namespace paths completed so far
+        self.typedef_names = []  # (path, new name, target has enums)
+        self.fn_groups = {}     # (path, name) -> expansions of the overloads so far
 
     def names(self, path):
         return self.used.setdefault(path, set())
@@ -153,8 +162,18 @@ def class_name(used=()):
     return _ident(CLASS_POOL, r'[A-Z][A-Za-z0-9]{0,5}', used)
 
 
+# identifiers that merely start with a word of the dialect are ordinary identifiers
+KW_PREFIXED = ['operatorNorm', 'constant', 'classes', 'enumerate', 'virtual_', 'staticVar',
+               'templated', 'typedefs', 'namespaces', 'unsigned_', 'pairs', 'voidness',
+               'include_', 'operator_count', 'structure', 'This_', 'std_']
+
+
 def lower_name(pool, used=()):
-    return _ident(pool, r'[a-z_][a-zA-Z0-9_]{0,6}', used)
+    base = _ident(pool, r'[a-z_][a-zA-Z0-9_]{0,6}', used)
+    kw = [k for k in KW_PREFIXED if k not in used]
+    if kw:
+        return st.one_of(base, base, base, base, base, st.sampled_from(kw))
+    return base
 
 
 def tparam_name(used=()):
@@ -439,10 +458,40 @@ def enums(draw, ctx: Ctx, used):
     return M.Enum(nm, tuple(es), kw)
 
 
+ARITH = {'bool', 'char', 'unsigned char', 'int', 'size_t', 'double', 'float'}
+
+
+def _expansions(args):
+    """(all, with_omission): collapsed type lists of the calls a parameter list with trailing
+    defaults stands for; arithmetic types convert into each other, so `f(bool = false)` and
+    `f(size_t = 0)` cannot both be called with the default written out as a literal."""
+    def col(t):
+        if not t.ns and not t.targs and t.name in ARITH and t.ptr in ('', '&'):
+            return 'arith'
+        return M.replace(t, const=False) if t.ptr == '' else t
+    types_ = tuple(col(a.type) for a in args)
+    n = len(args)
+    k = n
+    while k > 0 and args[k - 1].default is not None:
+        k -= 1
+    every = {types_[:i] for i in range(k, n + 1)}
+    return every, {types_[:i] for i in range(k, n)}
+
+
+def _ambiguous_with_defaults(args, earlier):
+    every, omitted = _expansions(args)
+    for e_all, e_om in earlier:
+        if (omitted & e_all) or (every & e_om):
+            return True
+    earlier.append((every, omitted))
+    return False
+
+
 def _distinct_signatures(members):
     """C++ cannot overload on return type or declare the same member twice: keep the first of
     each (kind-agnostic name, parameter types) and one operator per spelling and arity."""
     seen, out = set(), []
+    groups = {}
     have_tpl_ctor = False
     for m in members:
         if isinstance(m, M.Ctor):
@@ -465,6 +514,8 @@ def _distinct_signatures(members):
             continue
         if key in seen:
             continue
+        if key[0] == 'call' and _ambiguous_with_defaults(m.args, groups.setdefault(m.name, [])):
+            continue  # an omitted default would make the call ambiguous in C++ itself
         seen.add(key)
         out.append(m)
     names = {m.name for m in out if isinstance(m, M.Prop)}
@@ -589,6 +640,8 @@ def classes(draw, ctx: Ctx, path: Tuple[str, ...]):
                 members.append(M.Operator(r, op, a))
             elif op in ('+', '-') and draw(st.booleans()):
                 members.append(M.Operator(M.Ret(self_t), op, ()))
+                if draw(st.booleans()):  # unary and binary form of the same symbol
+                    members.append(M.Operator(M.Ret(self_t), op, (M.Arg(self_t, 'other'),)))
             else:
                 at = replace(self_t, const=True, ptr='&') if draw(st.booleans()) else self_t
                 members.append(M.Operator(M.Ret(self_t), op, (M.Arg(at, 'other'),)))
@@ -620,7 +673,8 @@ def classes(draw, ctx: Ctx, path: Tuple[str, ...]):
     cls = M.Class(name, tuple(members), template, virtual, parent)
     scoped = any(t2.ns and t2.ns[0] in ctp for t in M.all_types(cls) for t2 in t.walk())
     ctx.decls.append(Decl(path, name, 'class', len(ctp), virtual, has_lists, scoped,
-                          tuple(p.insts for p in template.params) if has_lists else ()))
+                          tuple(p.insts for p in template.params) if has_lists else (),
+                          any(isinstance(x, M.Enum) for x in members)))
     return cls
 
 
@@ -640,7 +694,12 @@ def functions(draw, ctx: Ctx, path):
     if prof.compilable:
         classes_here = classes_here | ctx.var_names.get(path, set()) | \
             {pth[len(path)] for pth in ctx.used if len(pth) > len(path) and pth[:len(path)] == path}
-    name = draw(lower_name(pool, classes_here))
+    earlier = sorted(n for (p_, n) in ctx.fn_count if p_ == path and n not in classes_here and
+                     (p_, n) not in ctx.locked)
+    if earlier and draw(st.integers(0, 2)) == 0:
+        name = draw(st.sampled_from(earlier))  # an overload, possibly not adjacent to the first
+    else:
+        name = draw(lower_name(pool, classes_here))
     ctx.fn_count[(path, name)] = ctx.fn_count.get((path, name), 0) + 1
     r = draw(rets(ctx, tps))
     a = draw(arg_lists(ctx, tps))
@@ -652,6 +711,8 @@ def functions(draw, ctx: Ctx, path):
                                  for x in a))
         if key in ctx.fn_sigs or (path, name) in ctx.fn_templates or \
                 (template and any(k[0] == path and k[1] == name for k in ctx.fn_sigs)):
+            return None
+        if _ambiguous_with_defaults(a, ctx.fn_groups.setdefault((path, name), [])):
             return None
         ctx.fn_sigs.add(key)
         if template:
@@ -696,10 +757,18 @@ def typedefs(draw, ctx: Ctx, path):
         targs = tuple(draw(types(ctx, 1 if plain else 2, (), qualifiers=qual, numbers=True,
                                  inner=True, top_qualifiers=qual))
                       for _ in range(n))
-    new = draw(class_name(used).filter(
-        lambda s: not prof.unique_lower_class_names or s.lower() not in ctx.lower_classes))
+    has_enums = bool(targets) and d.has_enums
+    elsewhere = sorted({n_ for (p_, n_, e_) in ctx.typedef_names
+                        if p_ != path and not e_ and n_ not in used})
+    if prof.same_typedef_name_other_ns and elsewhere and not has_enums and \
+            draw(st.integers(0, 2)) == 0:
+        new = draw(st.sampled_from(elsewhere))  # geometry::Default, sensors::Default
+    else:
+        new = draw(class_name(used).filter(
+            lambda s: not prof.unique_lower_class_names or s.lower() not in ctx.lower_classes))
     used.add(new)
     ctx.lower_classes.add(new.lower())
+    ctx.typedef_names.append((path, new, has_enums))
     first = M.Typedef(M.Type(ns, nm, targs), new)
     # a second typedef, of the same-named template in another namespace, right next to it
     twins = [x for x in (targets if targets else []) if x is not d and x.name == d.name] \
@@ -749,9 +818,9 @@ def variables(draw, ctx: Ctx, path):
 
 
 @st.composite
-def contents(draw, ctx: Ctx, path: Tuple[str, ...], depth_left: int, max_items=None):
+def contents(draw, ctx: Ctx, path: Tuple[str, ...], depth_left: int, max_items=None, lead=()):
     prof = ctx.prof
-    n = draw(st.integers(0, prof.max_items if max_items is None else max_items))
+    n = max(draw(st.integers(0, prof.max_items if max_items is None else max_items)), len(lead))
     kinds = ['class', 'class', 'class']
     if prof.free_functions:
         kinds += ['func', 'func']
@@ -768,14 +837,16 @@ def contents(draw, ctx: Ctx, path: Tuple[str, ...], depth_left: int, max_items=N
     if depth_left > 0:
         kinds += ['ns', 'ns']
     out = []
-    for _ in range(n):
-        k = draw(st.sampled_from(kinds))
+    for i_ in range(n):
+        k = lead[i_] if i_ < len(lead) else draw(st.sampled_from(kinds))
         if k == 'class':
             out.append(draw(classes(ctx, path)))
         elif k == 'func':
-            f_ = draw(functions(ctx, path))
-            if f_ is not None:
-                out.append(f_)
+            # free functions come in runs (f, g, f again: overloads need not be adjacent)
+            for _ in range(draw(st.sampled_from([1, 1, 2, 3]))):
+                f_ = draw(functions(ctx, path))
+                if f_ is not None:
+                    out.append(f_)
         elif k == 'enum':
             e = draw(enums(ctx, ctx.names(path)))
             ctx.names(path).add(e.name)
@@ -805,9 +876,20 @@ def contents(draw, ctx: Ctx, path: Tuple[str, ...], depth_left: int, max_items=N
                     {c for pth in ctx.used for c in pth}  # qualified names stay unambiguous
                 if not path:
                     ns_used -= {'gtsam'} - {c for pth in ctx.used for c in pth}
-            nm = draw(lower_name(NS_POOL, ns_used))  # a namespace is opened once per scope
+            # the same leaf name under another parent (a::detail, b::detail) is ordinary C++
+            leaves = sorted({p_[-1] for p_ in ctx.ns_paths} - set(ns_used) - set(path))
+            lead_ = ()
+            if prof.same_leaf_ns and not prof.compilable and leaves and \
+                    draw(st.integers(0, 1)) == 0:
+                nm = draw(st.sampled_from(leaves))
+                if prof.enums and draw(st.booleans()):
+                    lead_ = ('enum', 'class')  # ... with declarations of its own that get used
+            else:
+                nm = draw(lower_name(NS_POOL, ns_used))  # a namespace is opened once per scope
             used.add(nm)
-            out.append(M.Namespace(nm, draw(contents(ctx, path + (nm,), depth_left - 1))))
+            out.append(M.Namespace(nm, draw(contents(ctx, path + (nm,), depth_left - 1,
+                                                     lead=lead_))))
+            ctx.ns_paths.append(path + (nm,))
     if prof.move_typedefs:
         for i in range(len(out)):
             if isinstance(out[i], M.Typedef) and i > 0 and draw(st.integers(0, 2)) == 0:
